@@ -37,8 +37,13 @@ def make_set(cls, src, w, fields):
         kw.update(log_likelihood=np.arange(N) / 3, log_prior=np.arange(N) / 5 + 1, log_q=np.arange(N) / 9 + 2)
     elif fields == "some":
         kw.update(log_likelihood=np.arange(N) / 3)
+    # attached evidence: an exact zero in half of the cells (log Z = 0 +- 0 is a legitimate value, not "absent")
+    zero = (NSS.index(src) + WS.index(w) + len(fields)) % 2 == 0
+    ev = (0.0, 0.0) if zero else (1.25, 0.125)
     if cls == "smc":
-        kw.update(beta=0.5, log_evidence=1.25, log_evidence_error=0.125)
+        kw.update(beta=0.0 if zero else 0.5, log_evidence=ev[0], log_evidence_error=ev[1])
+    elif cls == "samples" and fields != "all":      # with the full triple the constructor recomputes the evidence
+        kw.update(log_evidence=ev[0], log_evidence_error=ev[1])
     return K, K(**kw)
 
 
@@ -127,8 +132,8 @@ def check_table(chk, cells):
                 problems.append(f"{f} values changed"); kept = False
             elif a is not None and ns.width_of(b) != got[2]:
                 problems.append(f"{f} has width {ns.width_of(b)}")
-        if cls == "smc":
-            for f in ("beta", "log_evidence", "log_evidence_error"):
+        if cls == "smc" or (cls == "samples" and fields != "all" and method != "from_samples"):
+            for f in (("beta",) if cls == "smc" else ()) + ("log_evidence", "log_evidence_error"):
                 a, b = getattr(s, f), getattr(t, f)
                 if b is None or abs(float(a) - float(b)) > 1e-6:
                     problems.append(f"{f} {a!r} -> {b!r}"); kept = False
@@ -237,6 +242,8 @@ def run(chk: core.Check):
     chk.trusted += ["library rules of numpy/torch/jax asarray on foreign dtype objects (parameters of the model, validated by this run)",
                     "jax runs with x64 enabled (as in the repository's test-suite)"]
     cells = all_cells(("all",) if quick else ("all", "some", "none"))
+    if quick:   # sets WITHOUT the full log-density triple (what SMC / MCMC return): attached evidence is carried, not recomputed
+        cells += [c for c in all_cells(("some",)) if c[4][0] == "none"]
     chk.exhaustive = True
     chk.extra["table_cells"] = len(cells)
     for i in range(0, len(cells), 800):
